@@ -1057,3 +1057,72 @@ func c01R21(c *Ctx, r *Report) {
 	})
 	r.Floor(rule, n, 3, "converting clauses of emitStringConcat")
 }
+
+// ---- C02.R18: a comparison's MIR type is bool ---------------------------------------------------------------------
+
+func init() {
+	lateInits = append(lateInits, func() {
+		props["C02"].Quick = append(props["C02"].Quick, c02R18)
+		props["C02"].Explanation += " (R18) every mir.Binary that is built with a constant comparison operator — as a composite literal or through emitBinary — carries the result type bool: both back ends read the operands' type off the left operand and size the result from Binary.Type (an i64 there makes the wasm module invalid)."
+	})
+}
+
+func c02R18(c *Ctx, r *Report) {
+	const rule = "C02.R18"
+	r.Describe(rule, "internal/mir and mir/gen: for every mir.Binary literal whose Op is one of the comparison tokens, and every emitBinary call whose operator argument is one, the type operand is types.TypeBool")
+	cmp := map[string]bool{"DOUBLE_EQUAL_TOKEN": true, "NOT_EQUAL_TOKEN": true, "LESS_TOKEN": true, "LESS_EQUAL_TOKEN": true, "GREATER_TOKEN": true, "GREATER_EQUAL_TOKEN": true}
+	isCmp := func(info *types.Info, e ast.Expr) bool {
+		o := constObj(info, e)
+		return o != nil && cmp[o.Name()]
+	}
+	isBool := func(info *types.Info, e ast.Expr) bool {
+		sel, ok := ast.Unparen(e).(*ast.SelectorExpr)
+		return ok && sel.Sel.Name == "TypeBool"
+	}
+	n := 0
+	for _, rel := range []string{pkgMIR, pkgMIRGen} {
+		for _, fn := range c.AllFns(rel) {
+			if fn.Decl.Body == nil {
+				continue
+			}
+			info := fn.Info()
+			ast.Inspect(fn.Decl.Body, func(x ast.Node) bool {
+				switch y := x.(type) {
+				case *ast.CompositeLit:
+					if !isNamed(info.TypeOf(y), Mod+"/"+pkgMIR, "Binary") {
+						return true
+					}
+					var op, typ ast.Expr
+					for _, el := range y.Elts {
+						if kv, ok := el.(*ast.KeyValueExpr); ok {
+							if id, ok := kv.Key.(*ast.Ident); ok {
+								if id.Name == "Op" {
+									op = kv.Value
+								}
+								if id.Name == "Type" {
+									typ = kv.Value
+								}
+							}
+						}
+					}
+					if op == nil || !isCmp(info, op) {
+						return true
+					}
+					n++
+					r.Check(typ != nil && isBool(info, typ), rule, fn.Name(), "mir.Binary{Op: "+exprStr(op)+"} has Type: types.TypeBool", c.pos(y.Pos()),
+						"a comparison is given the type of its operands as its result type: the wasm back end declares the result local with it, and for an i64 scrutinee the module does not validate (`local.set expected type i64, found i64.eq of type i32`) — `match v { 7 => … }` with an i64 v runs natively and cannot be loaded on wasm")
+				case *ast.CallExpr:
+					f := callee(info, y)
+					if f == nil || f.Name() != "emitBinary" || len(y.Args) < 4 || !isCmp(info, y.Args[0]) {
+						return true
+					}
+					n++
+					r.Check(isBool(info, y.Args[3]), rule, fn.Name(), "emitBinary("+exprStr(y.Args[0])+", …) has the type bool", c.pos(y.Pos()),
+						"a comparison built through emitBinary is typed with its operands' type instead of bool")
+				}
+				return true
+			})
+		}
+	}
+	r.Floor(rule, n, 5, "comparisons built with a constant operator")
+}
